@@ -22,8 +22,10 @@ Two mechanisms, per function:
   correspondence:
   convert_nglob_to_regex (control flow: merging, enclosed and trailing rules),
   convert_nglob_to_glob, _get_wildcard_name, iter_wildcard_names, has_anonymous_wildcards,
-  NamedGlob._default_used_names/_default_glob/_default_regex/_match_values/extend/reduce/glob/
-  will_change/files, Workflow.process_nglob_changes, startup.rescan_nglobs.
+  iter_wildcard_names, has_anonymous_wildcards, NamedGlob._default_used_names/_default_glob/
+  _default_regex/glob.  (convert_nglob_to_glob, _get_wildcard_name, _match_values, extend, reduce,
+  will_change, files: translated by gen_nglob_code.py; Watcher.record_change, will_change,
+  Workflow.process_nglob_changes, startup.rescan_nglobs: translated by gen_nglob_batch.py.)
 
 `python -m translator.gen_nglob --golden` prints the Coq lines to paste into NglobProofs.v after a
 reviewed change.
@@ -49,7 +51,9 @@ NGLOB = "stepup/core/nglob.py"
 #    regex fragments manipulated as text cannot be translated without a regex parser in Coq);
 #  - iter_wildcard_names / has_anonymous_wildcards (generators over RE_ANY_WILD.split),
 #    NamedGlob._default_* (attrs defaults: one call each), NamedGlob.glob (compared verbatim above);
-#  - the two callers in workflow.py / startup.py (see translator/gen_nglob_batch.py when present).
+# Workflow.process_nglob_changes and startup.rescan_nglobs are no longer fingerprinted either:
+# translator/gen_nglob_batch.py translates them (together with Watcher.record_change and will_change)
+# and proofs/NglobBatchTie.v proves the result equal to model/NglobBatch.v.
 FINGERPRINTED = [
     ("conv_regex", NGLOB, "convert_nglob_to_regex", None),
     ("iter_wildcard_names", NGLOB, "iter_wildcard_names", None),
@@ -58,8 +62,6 @@ FINGERPRINTED = [
     ("default_glob", NGLOB, "_default_glob", "NamedGlob"),
     ("default_regex", NGLOB, "_default_regex", "NamedGlob"),
     ("glob", NGLOB, "glob", "NamedGlob"),
-    ("process_nglob_changes", "stepup/core/workflow.py", "process_nglob_changes", "Workflow"),
-    ("rescan_nglobs", "stepup/core/startup.py", "rescan_nglobs", None),
 ]
 
 
